@@ -978,6 +978,12 @@ bool Builder::FinishCommand(BuildResult::CommandCompleted& result,
 
   // The rest of this function only applies to successful commands.
   if (!result.success()) {
+    // Whatever a failed command left of its depfile must not be trusted by
+    // later scans (it may be cut off, or may not even parse): without it the
+    // edge is simply dirty and the command is tried again.
+    string depfile = edge->GetUnescapedDepfile();
+    if (!depfile.empty() && !g_keep_depfile && !config_.dry_run)
+      disk_interface_->RemoveFile(depfile);
     return plan_.EdgeFinished(edge, Plan::kEdgeFailed, err);
   }
 
